@@ -157,7 +157,7 @@ def run(ctx: common.Ctx):
     ctx.coverage['rule'] = (
         'paired REAL runs on generated inputs: (a) same input under a configuration and a relaxed one '
         '(miscleavage +1/+2, min-length -1..-3, max-length +1..+10, min-mw -100/-200, SECT on, W2F on), '
-        '(b) a random strict subset of the GVF records vs all records, (c) --noncanonical-transcripts and '
+        '(b) a random strict subset of the GVF records vs all records, (b2) a GVF FILE added: inputs with small records + one fusion + one circRNA of the donor in three files, run without the fusion file / without the circRNA file vs all files, (c) --noncanonical-transcripts and '
         '--backsplicing-only vs the unrestricted run on multi-unit inputs with fusions and circRNAs. '
         'Relaxed/added runs must contain the stricter run except for peptides the Lean definition itself '
         'excludes under the relaxed setting; every added peptide must be attributable (SECT/W2F entry, '
@@ -179,6 +179,25 @@ def run(ctx: common.Ctx):
                                  variations=['sect', 'addvar']))
     judge(ctx, res, 'special-codons')
     s2b = dict(ctx.coverage['worker_stats'])
+    # adding a GVF FILE: fusion + circRNA of the donor + small records in three files; the run
+    # without the fusion file (without the circRNA file) must be contained in the full run
+    bres = cv_checks.explore_backbone(ctx, 'combo', ctx.n(70, 1200), dict(exception=None))
+    for r in bres:
+        if 'sub' not in r or 'real' not in r:
+            continue
+        full = set(r['real'])
+        for name, sr in r['sub'].items():
+            ctx.evaluated('add-gvf-file', f"{r['seed']}:{name}", bool(full - set(sr['real'])),
+                          dict(r['desc'], pair=name))
+            if sr['status'] != 'ok':
+                ctx.add_violation(f'run {name} crashed: {sr["status"]}', dict(r['desc'], kind=name))
+                continue
+            lost = set(sr['real']) - full
+            if lost:
+                ctx.add_violation(
+                    f'adding the GVF file ({name} -> all files) removed {len(lost)} peptide(s), e.g. '
+                    f'{sorted(lost)[:3]}', dict(r['desc'], kind='add-file-removes', pair=name,
+                                               lost=sorted(lost)[:20]))
     n = ctx.n(30, 400)
     jobs = [(ctx.rng('rjob', i).randrange(1 << 30), ctx.tier) for i in range(n)]
     with mp.get_context('fork').Pool(14) as pool:
